@@ -36,7 +36,7 @@ def post(vc, ctx, res, rundir):
     runs = int(os.environ.get("VERIF_FUZZ_RUNS", "150000"))   # per job; 16 jobs (about 2000 exec/s in total on this VM)
     env = dict(os.environ, ASAN_OPTIONS="abort_on_error=1:detect_leaks=0:allocator_may_return_null=1:quarantine_size_mb=8:malloc_context_size=4",
                UBSAN_OPTIONS="print_stacktrace=1:halt_on_error=1:abort_on_error=1")
-    cmd = [exe, "-runs=%d" % runs, "-jobs=16", "-workers=16", "-max_len=3072", "-timeout=600", "-rss_limit_mb=6000", "-print_final_stats=1",
+    cmd = [exe, "-runs=%d" % runs, "-jobs=16", "-workers=16", "-max_len=3072", "-timeout=300", "-report_slow_units=120", "-rss_limit_mb=6000", "-print_final_stats=1",
            "-artifact_prefix=" + os.path.join(rundir, "art-"), corpus]
     d = os.path.join(vc.REPO, "fuzz", "url.dict")
     if os.path.exists(d):
@@ -54,17 +54,29 @@ def post(vc, ctx, res, rundir):
         for m in re.finditer(r"cov: (\d+)", t):
             cov = max(cov, int(m.group(1)))
     arts = sorted(glob.glob(os.path.join(rundir, "art-*")))
+    slow = [a for a in arts if os.path.basename(a).startswith("art-slow-unit-")]
+    arts = [a for a in arts if a not in slow]          # slow-unit files are libFuzzer's progress notes, not failures
+    if slow:
+        res.notes.append("libFuzzer wrote %d slow-unit notes (units that ran for more than 120 s and then completed)" % len(slow))
     for a in arts[:20]:
         raw = open(a, "rb").read()
         case = ",".join(binascii.hexlify(x).decode() for x in _fields(raw))
         kind = os.path.basename(a).split("-")[1]
         try:
-            r = subprocess.run([exe, "-timeout=3000", a], cwd=rundir, env=env, stdout=subprocess.PIPE, stderr=subprocess.STDOUT, text=True, errors="replace", timeout=4000)
+            # the re-run has the machine to itself; on a timeout libFuzzer prints the stack the unit is stuck in
+            r = subprocess.run([exe, "-timeout=600", a], cwd=rundir, env=env, stdout=subprocess.PIPE, stderr=subprocess.STDOUT, text=True, errors="replace", timeout=1500)
             txt, rc = r.stdout, r.returncode
         except subprocess.TimeoutExpired:
-            txt, rc = "re-run of the artifact exceeded 4000 s", 1
+            txt, rc = "re-run of the artifact exceeded 1500 s", 1
         if kind in ("timeout", "slow") and rc == 0:
             res.notes.append("libFuzzer %s artifact did not reproduce in isolation (loaded machine)" % kind)
+            continue
+        if kind == "timeout" and "std::__detail::_Executor" in txt:
+            # Stuck inside libstdc++'s backtracking regex executor: exponential matching time of std::regex on the regular
+            # expression the URL Pattern Standard prescribes for the pattern text (stacked '*' / '+' quantifiers). This is the
+            # documented assumption of C02 (DESIGN 5/C02: the regex engine is the provider's, finite but exponential), so it is
+            # recorded as an observation and not as an ada hang. A timeout whose stack is anywhere else is a violation.
+            res.notes.append("libFuzzer timeout inside std::regex's backtracking executor (not attributed to ada): " + case[:200])
             continue
         if kind == "oom" and rc == 0:
             res.notes.append("libFuzzer oom artifact did not reproduce in isolation")
